@@ -106,3 +106,70 @@ package vm
 //@   requires int(op) <= _MAX
 //@   modifies prefix[*]
 //@   ensures[C14] @roundtrip err == nil && int(o) == int(op) && len(r) == 0
+
+// ---- navigation targets (input.go) ----
+// Meaning of the package-level regular expressions (assumed; validated by a
+// bounded run of the real expressions in /verif/bounded).
+//@ axiom all[string](s, reMatch(ctrlRegex, s) <==> (s == "_" || s == ">" || s == "<" || s == "^" || s == "."))
+//@ axiom all[string](s, reMatch(symRegex, s) ==> len(s) >= 2)
+//@ pred isCtrl(s) = s == "_" || s == ">" || s == "<" || s == "^" || s == "."
+//@ pred isNode(s) = s == "_catch" || reMatch(symRegex, s)
+
+//@ func valid
+//@   ensures[C04] @valid result == (len(target) > 0 && (isNode(str(target)) || isCtrl(str(target))))
+
+//@ ghost cac(ca) = as[*cache.Cache](ca)
+//@ pred memOk(ca) = typeis[*cache.Cache](ca) && cache.shape(cac(ca))
+//@ pred memWf(ca) = cache.unique(cac(ca)) && cache.sized(cac(ca)) && cache.acct(cac(ca)) && cache.capped(cac(ca))
+//@ ghost levels(ca) = len(cac(ca).Cache)
+//@ ghost depth(st) = len(st.ExecPath)
+
+// '^': unwind to the entry node, releasing one cache scope per level left.
+//@ func Rewind
+//@   requires st != nil && memOk(ca)
+//@   requires[C05,C08] memWf(ca)
+//@   modifies st.ExecPath, st.SizeIdx, st.Moves, st.lastMove, cac(ca).Cache, cac(ca).Cache[*], cac(ca).CacheUseSize, cac(ca).Sizes[*]
+//@   ensures[C04] @top old(depth(st)) >= 1 ==> result1 == nil && depth(st) == 1 && st.ExecPath[0] == old(st.ExecPath[0])
+//@   ensures[C04] @idx old(depth(st)) > 1 ==> st.SizeIdx == 0 && result0 == st.ExecPath[0]
+//@   ensures[C04] @attop old(depth(st)) <= 1 ==> state.samePosition(st) && (old(depth(st)) == 1 ==> result0 == sym)
+//@   ensures[C04] @noerr result1 == nil
+//@   ensures @mem memOk(ca) && (sameBacking(cac(ca).Cache, old(cac(ca).Cache)) || fresh(cac(ca).Cache))
+//@   ensures[C05,C08] @memwf memWf(ca)
+//@   ensures[C05,C08] @levels old(depth(st)) >= 1 ==> levels(ca) == max(1, old(levels(ca)) - (old(depth(st)) - 1))
+//@   loop 1 modifies st.ExecPath, st.SizeIdx, st.Moves, st.lastMove, cac(ca).Cache, cac(ca).Cache[*], cac(ca).CacheUseSize, cac(ca).Sizes[*]
+//@   loop 1 invariant @mem memOk(ca) && (sameBacking(cac(ca).Cache, loopold(cac(ca).Cache)) || loopfresh(cac(ca).Cache))
+//@   loop 1 invariant[C05,C08] @memwf memWf(ca)
+//@   loop 1 invariant @path depth(st) <= old(depth(st)) && (old(depth(st)) >= 1 ==> depth(st) >= 1 && st.ExecPath[0] == old(st.ExecPath[0]))
+//@   loop 1 invariant @moved depth(st) < old(depth(st)) ==> st.SizeIdx == 0 && sym == state.last(st)
+//@   loop 1 invariant @unmoved depth(st) == old(depth(st)) ==> state.samePosition(st) && sym == old(sym)
+//@   loop 1 invariant[C05,C08] @levels old(depth(st)) >= 1 ==> levels(ca) == max(1, old(levels(ca)) - (old(depth(st)) - depth(st)))
+
+// The documented move table (doc/texinfo/navigation.texi), as a contract on
+// the single function that every MOVE, INCMP and CATCH goes through.
+// Down panics beyond state.MaxLevel and on a move into the current node; both
+// are preconditions (the well-formedness premise of C08 for the latter).
+//@ ghost tgt(target) = str(target)
+//@ pred movesDown(target) = len(target) > 0 && isNode(tgt(target))
+//@ func applyTarget
+//@   requires st != nil && memOk(ca)
+//@   requires[C05,C08] memWf(ca)
+//@   requires movesDown(target) ==> depth(st) <= state.MaxLevel && (depth(st) > 0 ==> state.last(st) != tgt(target))
+//@   modifies st.ExecPath, st.ExecPath[*], st.SizeIdx, st.Moves, st.lastMove, cac(ca).Cache, cac(ca).Cache[*], cac(ca).CacheUseSize, cac(ca).Sizes[*]
+//@   ensures @mem memOk(ca)
+//@   ensures[C05,C08] @memwf memWf(ca)
+//@   ensures[C04] @invalid !(len(target) > 0 && (isNode(tgt(target)) || isCtrl(tgt(target)))) ==> result2 != nil && state.samePosition(st)
+//@   ensures[C04] @down movesDown(target) ==> result2 == nil && depth(st) == old(depth(st)) + 1 && state.last(st) == tgt(target)
+//@     && st.SizeIdx == 0 && state.pathPrefix(st, old(depth(st))) && result0 == tgt(target) && result1 == 0
+//@   ensures[C04] @up tgt(target) == "_" && old(depth(st)) > 1 ==> result2 == nil && depth(st) == old(depth(st)) - 1
+//@     && st.SizeIdx == 0 && state.pathPrefix(st, depth(st)) && result0 == state.last(st)
+//@   ensures[C04] @upfail tgt(target) == "_" && old(depth(st)) <= 1 ==> result2 != nil && state.samePosition(st)
+//@   ensures[C04,C02] @next tgt(target) == ">" && old(depth(st)) > 0 ==> result2 == nil && state.samePath(st)
+//@     && int(st.SizeIdx) == (old(int(st.SizeIdx)) + 1) % 65536 && result1 == st.SizeIdx
+//@   ensures[C04,C02] @previous tgt(target) == "<" && old(depth(st)) > 0 && old(st.SizeIdx) > 0 ==> result2 == nil && state.samePath(st)
+//@     && int(st.SizeIdx) == old(int(st.SizeIdx)) - 1 && result1 == st.SizeIdx
+//@   ensures[C04,C02,C03] @first tgt(target) == "<" && old(depth(st)) > 0 && old(st.SizeIdx) == 0 ==> result2 == state.IndexError && state.samePosition(st)
+//@   ensures[C04] @rewind tgt(target) == "^" && old(depth(st)) >= 1 ==> result2 == nil && depth(st) == 1 && st.ExecPath[0] == old(st.ExecPath[0])
+//@     && (old(depth(st)) > 1 ==> st.SizeIdx == 0) && (old(depth(st)) == 1 ==> st.SizeIdx == old(st.SizeIdx))
+//@   ensures[C04] @same tgt(target) == "." ==> result2 == nil && state.samePosition(st)
+//@   ensures[C04,C03] @failed result2 != nil ==> state.samePosition(st)
+//@   ensures[C05,C08] @lockstep result2 == nil && old(levels(ca)) == old(depth(st)) + 1 && old(depth(st)) >= 1 ==> levels(ca) == depth(st) + 1
